@@ -263,6 +263,37 @@ func (p c15) RunBatch(ctx *core.Ctx, batch int) {
 			c15Tree(ctx, t, true)
 			ctx.Count("relation_trees", 1)
 		}
+		// big nodes: value lists of up to a few thousand members and left-deep chains of as many
+		// clauses (every size a limit written in the tree under test names is met from both
+		// sides): still one call per node, with the children's results, and nothing else
+		for _, n := range gen.Sizes([]int{2, 17, 255, 256, 257, 1000, 1001, 1024, 1025, 4097}, 2, 5000) {
+			n := n
+			items := make([]*expr.Expression, n)
+			for i := range items {
+				if i%3 == 0 {
+					items[i] = expr.Lit(i)
+				} else {
+					items[i] = expr.Lit(fmt.Sprintf("v%d", i))
+				}
+			}
+			big := expr.IN("a", expr.LIST(items))
+			ctx.Case(fmt.Sprintf("value list of %d members", n), func() { c15Fold(ctx, fmt.Sprintf("list of %d", n), big, true) })
+			ctx.Case(fmt.Sprintf("value list of %d members under NOT / OR", n), func() {
+				c15Fold(ctx, fmt.Sprintf("list of %d under NOT/AND", n), expr.AND(expr.NOT(big), expr.Eq("c", "d")), true)
+			})
+			if n <= 2100 {
+				var chain *expr.Expression = expr.Eq("f0", 0)
+				for i := 1; i < n; i++ {
+					if n%2 == 0 {
+						chain = expr.OR(chain, expr.Eq(fmt.Sprintf("f%d", i), i))
+					} else {
+						chain = expr.AND(chain, expr.Eq(fmt.Sprintf("f%d", i), i))
+					}
+				}
+				ctx.Case(fmt.Sprintf("chain of %d clauses", n), func() { c15Fold(ctx, fmt.Sprintf("chain of %d", n), chain, true) })
+			}
+			ctx.Count("big_node_trees", 1)
+		}
 		// every explicit amount, 0 and 1 included, on every leaf and under every operator: the
 		// ~ / ^ node must be there and must make the stock renderers fail
 		for _, l := range qt.QuickLeaves() {
